@@ -142,6 +142,7 @@ class Compiler:
     body = tree.body[0].body if isinstance(tree.body[0], ast.FunctionDef) else tree.body
     died = self.P.label('died')
     self.handlers.append(('label', died))
+    self.P.emit('start')                  # thread entry: the only instruction at which a thread can sit before it first runs
     self.stmts(body)
     self.P.emit('halt')
     self.P.place(died)
@@ -683,13 +684,21 @@ class Compiler:
 
   def e_Compare(self, e):
     left = self.expr(e.left)
-    out = None
-    for op, rn in zip(e.ops, e.comparators):
+    if len(e.ops) == 1:
+      return Val('bool', e=self.compare(e.ops[0], left, self.expr(e.comparators[0]), e))
+    # chained comparison a op b op c: python stops evaluating operands at the first false link
+    res = self.local(self.fresh('cmp'), 'bool')
+    lend = self.P.label('cmp_end')
+    for i, (op, rn) in enumerate(zip(e.ops, e.comparators)):
       right = self.expr(rn)
-      t = self.compare(op, left, right, e)
-      out = t if out is None else ('op', 'and', out, t)
+      self.P.emit('set', e.lineno, dst=('l', res), e=self.compare(op, left, right, e))
+      if i + 1 < len(e.ops):
+        lnext = self.P.label('cmp_next')
+        self.P.emit('br', e.lineno, e=('l', res), t=lnext, f=lend)
+        self.P.place(lnext)
       left = right
-    return Val('bool', e=out)
+    self.P.place(lend)
+    return Val('bool', e=('l', res))
 
   def compare(self, op, a, b, node):
     if isinstance(op, (ast.Is, ast.IsNot, ast.Eq, ast.NotEq)) and (a.ty == 'none' or b.ty == 'none'):
@@ -1029,6 +1038,8 @@ class Compiler:
           dst = self.local(self.fresh('w'), 'bool')
           self.P.emit('wait', line, cond=t.c['id'], lock=lock)
           self.P.emit('wake', line, cond=t.c['id'], lock=lock, dst=('l', dst), timed=(to.ty != 'none'))
+          if to.ty == 'none':
+            return Val('bool', e=TRUE)         # wait() without timeout can only return True
           return Val('bool', e=('l', dst))
         if k == 'cond' and name in ('notify', 'notify_all'):
           self.P.emit('notify', line, cond=t.c['id'], all=(name == 'notify_all'))
